@@ -11,13 +11,14 @@ MC_CONSTS = {
 PROPS = {
     "C01": dict(inv=["WriteReadSem", "StripedSem", "StripedPanic"], profiles=["io"]),
     "C02": dict(inv=["SliceSem", "SliceCompose", "Aliasing"], profiles=["slice"]),
-    "C03": dict(inv=["AppendSem"], profiles=["append"]),
+    "C03": dict(inv=["AppendSem"], profiles=["append"], gen={"quick": (150, 20), "thorough": (2000, 30)}),
     "C04": dict(inv=["AppendSampleSem"], profiles=["appendsample"]),
     "C05": dict(inv=["ConvertSem"], profiles=["convert"]),
-    "C12": dict(inv=["Aliasing", "AppendSem", "SliceSem", "AppendSampleSem", "WriteReadSem"], profiles=["exh", "hist"]),
+    "C12": dict(inv=["Aliasing", "AppendSem", "SliceSem", "AppendSampleSem", "WriteReadSem"], profiles=["exh", "hist"],
+                gen={"quick": (300, 25), "thorough": (5000, 40)}),
     "C13": dict(inv=["AllocSem"], profiles=["alloc"]),
     "C14": dict(inv=["ChannelSem"], profiles=["channel"]),
-    "C15": dict(inv=["StripedPanic", "ConvertSem", "AppendSem"], profiles=["panics"]),
+    "C15": dict(inv=["StripedPanic", "ConvertSem", "AppendSem"], profiles=["panics"], gen={"quick": (150, 20), "thorough": (2000, 30)}),
     "C20": dict(inv=["Inert", "ZeroLen"], profiles=["zero"]),
 }
 
@@ -56,6 +57,27 @@ def attribute(m, prefix_ops):
     return props
 
 
+GEN_CFG = "SPECIFICATION Spec\nCONSTANTS\n  MaxViews = %d\n  MaxCh = %d\n  MaxFrames = %d\n  Depth = %d\nINVARIANT Emit\nCHECK_DEADLOCK FALSE\n"
+
+
+def generate(ctx, num, depth, maxviews=5, maxch=3, maxframes=3):
+    """spec -> code: TLC simulates SignalGen and prints behaviours; returns the script file (one JSON array per line)."""
+    import re
+    rc, out = ctx.tlc("SignalGen", GEN_CFG % (maxviews, maxch, maxframes, depth), workers=1, timeout=600,
+                      extra=["-simulate", "num=%d" % num, "-depth", str(depth * 3), "-seed", str(ctx.seed)], tag="SignalGen")
+    scripts = []
+    for line in out.splitlines():
+        m = re.match(r'^<<"SCRIPT", "(.*)">>\s*$', line)
+        if m:
+            scripts.append(m.group(1).replace('\\"', '"'))
+    if len(scripts) < num // 2:
+        raise Infra("behaviour generation produced %d of %d scripts:\n%s" % (len(scripts), num, tail(out)))
+    p = os.path.join(ctx.work, "genscripts.ndjson")
+    open(p, "w").write("\n".join(scripts) + "\n")
+    ctx.note("TLC generated %d behaviours of depth %d from SignalGen" % (len(scripts), depth))
+    return p, len(scripts)
+
+
 def run(ctx, extra_profiles=()):
     spec = PROPS[ctx.prop]
     # 1. the property stated on the model, exhaustively under small bounds
@@ -68,9 +90,19 @@ def run(ctx, extra_profiles=()):
         ctx.note("recorded %s: %d traces, %d events, %d distinct cases" % (prof, st["traces"], st["events"], st["cases"]))
         stats.append(st)
         files += st["files"]
+    ngen = 0
+    if spec.get("gen"):
+        num, depth = spec["gen"][ctx.tier]
+        path, ngen = generate(ctx, num, depth)
+        st = ctx.record("genscript", extra=["--script", path])
+        ctx.note("replayed %d generated behaviours on the real library: %d events" % (ngen, st["events"]))
+        stats.append(st)
+        files += st["files"]
     mm, tot = validate_files(ctx, "SignalTrace", TRACE_CFG, files)
     ctx.note("validated %d events (%d judged, %d traces cut at an unspecified step), %d mismatches" % (tot["lines"], tot["judged"], tot["unspec"], len(mm)))
     extra_viol, extra_cov = 0, {}
+    if ngen:
+        extra_cov["spec_behaviours_replayed_on_impl"] = ngen
     if ctx.prop == "C15":      # Put of a buffer with a different total capacity: decided with Pool.tla
         import pool_family
         st = ctx.record("poolforeign")
